@@ -255,7 +255,7 @@ func checkComplete(src *formula.SourceCode, text []byte) []string {
 var parseLex = []string{
 	"a", "$b", "1", "'s'", "null", "true", "this", "typeof", "(", ")", "[", "]", ",", ".", "!.", "...", "=", "?", ":",
 	"+", "-", "!", "!!", "~", "*", "/", "%", "<", "<=", "==", "===", "!=", "!==", "&&", "||", "??", "&", "|", "^", ">", ">=",
-	"#", "1a", "'x", "0x1", "f",
+	"#", "1a", "'x", "0x1", "f", "false", "ctx", "True", "nullx", "1_", "1__2", "1e", "0xg", "'\\xg'", "1_a",
 }
 
 func suiteParse(o *Out, thorough bool, seed int64) {
